@@ -1109,7 +1109,14 @@ func (w *World) finish() {
 			w.res.SubCounts = w.mgr.DBs[0].VerifSubscriberCounts()
 		}()
 	}
-	// teardown: let every goroutine of the bubble finish
+	// teardown: let every goroutine of the bubble finish (expiry timers that would
+	// fire years from now are cancelled: they would outlive the run and keep its
+	// whole keyspace alive)
+	if w.mgr != nil {
+		for _, db := range w.mgr.DBs {
+			db.VerifStopTimers()
+		}
+	}
 	w.cancel()
 	if w.lst != nil {
 		w.lst.Close()
